@@ -331,5 +331,6 @@ Definition node_ok (g : grammar) (pr : nat -> bool) (nd : node) : bool :=
   | _ => false
   end.
 Definition wfg (g : grammar) (pf : nat) : bool :=
-  (let t := prod_tbl g pf in forallb (node_ok g (fun c => nth c t false)) (g_nodes g)) && opt_none (g_comments g).
+  (let t := prod_tbl g pf in forallb (node_ok g (fun c => nth c t false)) (g_nodes g)) && opt_none (g_comments g)
+  && Nat.ltb (g_top g) (length (g_nodes g)).
 Definition orc_pos (orc : nat -> nat -> option nat) : Prop := forall o p n, orc o p = Some n -> 0 < n.
